@@ -161,6 +161,45 @@ export function buildLoop(host, ctx, vs) {
   return { src: b.source(), spec: { thunks: [{ name: 't0' }], env: b.env, ctx, shape: 'loopCall', vs, loop: true } };
 }
 
+/** an identifier child whose variable was, earlier, the target of an unrelated `x = <jsx>` assignment */
+export const PRIOR_ASSIGN = ['fnLet', 'moduleReassign', 'fnParamDefault'];
+export function buildPriorAssign(host, variant) {
+  const b = new ModuleBuilder();
+  const tag = hostTag(b, host);
+  const el = { tag, attrs: [], children: [{ ...C.expr(b.leaf('0'), 'cur'), shape: 'ident' }] };
+  const J = renderElement(el);
+  switch (variant) {
+    case 'fnLet': b.thunks.push(`export function t0() {\n  let cur = null;\n  if (typeof t0 === "function") cur = <i id="first" />;\n  return ${J};\n}`, 'export const setCur = () => {};'); break;
+    case 'moduleReassign': b.thunks.push('let cur = null;', 'cur = <i id="first" />;', `export const t0 = () => ${J};`, 'export const setCur = () => { cur = <i id="second" />; };'); break;
+    case 'fnParamDefault': b.thunks.push(`export function t0(cur = null) {\n  cur = cur || <i id="first" />;\n  const r = ${J};\n  return r;\n}`, 'export const setCur = () => {};'); break;
+    default: throw new Error(variant);
+  }
+  return { src: b.source(), spec: { thunks: [{ name: 't0' }], env: b.env, ctx: variant, shape: 'priorAssign', vs: 'absent', priorAssign: variant } };
+}
+
+export async function checkPriorAssignVariant(P, spec, rec, v, base) {
+  const live = (r) => {
+    const e = r.thunks[0];
+    if (e.A.error) return violated({ ...base, oracle: 'thunk-evaluates', sig: `${P}/runtime-error/${e.A.error.name}/priorAssign:${spec.ctx}`, detail: e.A.error });
+    const vn = e.A.raw;
+    const idOf = () => { const ch = vn && vn.children; const fn = typeof ch === 'function' ? ch : ch && ch.default; if (typeof fn !== 'function') return 'no-slot'; try { const a = fn(); return Array.isArray(a) && a.length === 1 && a[0] && a[0].props ? String(a[0].props.id) : 'shape:' + short(JSON.stringify(a), 60); } catch (ex) { return 'threw ' + ex.name; } };
+    const first = idOf();
+    if (first !== 'first') return violated({ ...base, oracle: 'identifier child wrapped as the default slot returning the variable\'s value', sig: `${P}/prior-assign/slot-wrong/${spec.ctx}`, detail: { got: first } });
+    if (spec.ctx === 'moduleReassign') {
+      r.ns.setCur();
+      const second = idOf();
+      if (second !== 'second') return violated({ ...base, oracle: 'slot content is read when the slot is invoked', sig: `${P}/prior-assign/slot-stale/${spec.ctx}`, detail: { got: second } });
+    }
+    return held({ ...base, events: { slot_invocations: spec.ctx === 'moduleReassign' ? 2 : 1 }, shape: `priorAssign:${spec.ctx}` });
+  };
+  const r = await evalSemantic(spec, rec, v.options, { live, runRef: false });
+  if (r.error) {
+    const harness = ['HarnessUnknownModule', 'HarnessError', 'MockUnimplemented'].includes(r.error.name) || r.error.phase === 'exec-declined';
+    return harness ? inconclusive({ ...base, reason: short(r.error) }) : violated({ ...base, oracle: 'module-evaluates', sig: `${P}/module-error/${r.error.phase}/${r.error.name}/priorAssign:${spec.ctx}`, detail: r.error });
+  }
+  return r.live;
+}
+
 function build(host, shape, kind, vs, ctx) {
   const b = new ModuleBuilder();
   const tag = hostTag(b, host);
@@ -174,6 +213,8 @@ function build(host, shape, kind, vs, ctx) {
 const RUNTIME_SHAPES = new Set(['identBound', 'identUnbound', 'call', 'cond', 'mixed1', 'mixed2', 'nestedComp', 'optMemberDeep', 'newExpr', 'arrayLit', 'logicalOr', 'parenCall', 'awaitLike']);
 const OPTS = [];
 for (const enableObjectSlots of [true, false]) for (const optimize of [false, true]) OPTS.push({ enableObjectSlots, optimize });
+// configurations that leave enableObjectSlots out (it defaults to on)
+OPTS.push({}, { optimize: true, mergeProps: false });
 
 export function* generate({ tier, seed }) {
   const rng = mulberry32(seed * 31337 + 3);
@@ -186,6 +227,10 @@ export function* generate({ tier, seed }) {
       variants: opts.map((o, i) => ({ vid: `v${i}`, options: o })),
     };
   };
+  for (const host of HOSTS) for (const variant of PRIOR_ASSIGN) {
+    const c = buildPriorAssign(host, variant);
+    yield { gid: `C03-${n++}`, src: c.src, syntax: 'jsx', spec: c.spec, feature: `priorAssign|${host}|${variant}`, variants: OPTS.map((o, i) => ({ vid: `v${i}`, options: o })) };
+  }
   for (const host of HOSTS) for (const ctx of LOOP_CONTEXTS) for (const vs of VSLOTS) {
     const c = buildLoop(host, ctx, vs);
     yield { gid: `C03-${n++}`, src: c.src, syntax: 'jsx', spec: c.spec, feature: `loop|${host}|${ctx}|${vs}`, variants: OPTS.map((o, i) => ({ vid: `v${i}`, options: o })) };
@@ -255,6 +300,7 @@ export async function check(group, records) {
     if (rec.n_err > 0) { out.push(violated({ ...base, oracle: 'no-diagnostic-on-valid-input', sig: 'C03/unexpected-diagnostic', detail: rec.diags })); continue; }
     const th = spec.thunks[0];
     if (spec.loop) { out.push(await checkLoopVariant('C03', spec, rec, v, base)); continue; }
+    if (spec.priorAssign) { out.push(await checkPriorAssignVariant('C03', spec, rec, v, base)); continue; }
     const live = (r) => {
       const e = r.thunks[0];
       if (e.B.error) return inconclusive({ ...base, reason: 'reference failed: ' + short(e.B.error) });
